@@ -669,7 +669,10 @@ class MacroProgram(ElementProgram):
             return nodes.Text(node.replace('$$', '$'))
 
         expr = nodes.Substitution(node, ())
-        return nodes.Interpolation(expr, True, False)
+        # Character data is literal: there are no entities to decode
+        return nodes.Interpolation(
+            expr, True, False, decode_htmlentities=False
+        )
 
     def visit_comment(self, node):
         if node.startswith('<!--!'):
@@ -711,7 +714,11 @@ class MacroProgram(ElementProgram):
         if self._interpolation[-1] and '${' in node:
             char_escape = ('&', '<', '>') if self.escape else ()
             expression = nodes.Substitution(node, char_escape)
-            return nodes.Interpolation(expression, True, translation)
+            # Entities exist in markup only (not in a text template)
+            return nodes.Interpolation(
+                expression, True, translation,
+                decode_htmlentities=self.escape
+            )
 
         node = node.replace('$$', '$')
 
